@@ -77,13 +77,14 @@ def portLenOf (vals : List Rat) : Nat :=
 def maxPortLen (ports : List Txt) (rows : List Row) : List Nat :=
   (List.range ports.length).map (fun i => portLenOf (column rows i))
 
+/-- the centred port names, each followed by its separator -/
+def portSegs : List Txt → List Nat → List Nat → Txt
+  | n :: ns, l :: ls, s :: ss => center (l + headerPad) n ++ s :: portSegs ns ls ss
+  | _, _, _ => []
+
 /-- `_get_port_number_line(port_len, separator)` -/
 def portNumberLine (ports : List Txt) (plens : List Nat) (sep : Nat) : Txt :=
-  let seps := sepList sep headerGroupSep ports
-  let rec go : List Txt → List Nat → List Nat → Txt
-    | n :: ns, l :: ls, s :: ss => center (l + headerPad) n ++ s :: go ns ls ss
-    | _, _, _ => []
-  sep :: go ports plens seps
+  sep :: portSegs ports plens (sepList sep headerGroupSep ports)
 
 /-! ### cells -/
 
